@@ -741,11 +741,65 @@ def c20(prop, tier, seed):
     # One process at a time (its 16 threads get the 16 cores; a process takes ~15 ms). The window of such a race is a few
     # microseconds: on a seeded racy lazy-init about 1 % (dbg) / 0.3 % (rel) of the processes hit it, hence the large number.
     n_cold = 1500 if quick else 30000
+    cold0 = 5_000_000
+    cold_joined = cold_mismatch = 0
     for variant in ("rel", "dbg"):
         binp = D.build(variant)
-        D.run_sharded(agg, binp, prop, seed, n_cold, tier, variant=variant, tag="c", workers=1, chunk=1, start=5_000_000,
-                      extra={"max_threads": 16, "cold": 1})
+        # reference: the same cases calculated strictly sequentially by other processes (16 shards in parallel)
+        ref = {}
+        side = D.Agg()
+        shard = (n_cold + 15) // 16
+        import concurrent.futures as cf0
+
+        def run_ref(s0, n):
+            hp = os.path.join(D.RUN, f"{prop}-hist-ref{variant}-{s0}.tsv")
+            D.run_range(side, binp, prop, seed, s0, n, tier, f"r{variant}", {"--hist": hp, "cold": 2, "max_threads": 16}, 1800, None, None, None, variant)
+            return hp
+
+        with cf0.ThreadPoolExecutor(max_workers=D.NCPU) as ex:
+            futs = [ex.submit(run_ref, cold0 + k * shard, min(shard, n_cold - k * shard)) for k in range(16) if k * shard < n_cold]
+            ref_files = [f.result() for f in futs]
+        for v in side.viol:
+            agg.viol.append(v)
+            agg.viol_sig_counts[v["sig"]] = agg.viol_sig_counts.get(v["sig"], 0) + 1
+        agg.inconclusive.extend(side.inconclusive)
+        for fn in ref_files:
+            if os.path.exists(fn):
+                for line in open(fn):
+                    k, _, v = line.rstrip("\n").partition("\t")
+                    ref.setdefault(k, set()).add(v)
+        # cold processes, one at a time
+        for i in range(n_cold):
+            hp = os.path.join(D.RUN, f"{prop}-hist-cold{variant}-{cold0 + i}.tsv")
+            D.run_range(agg, binp, prop, seed, cold0 + i, 1, tier, f"c{variant}", {"--hist": hp, "cold": 1, "max_threads": 16},
+                        1800, None, None, None, variant)
+            if not os.path.exists(hp):
+                continue
+            seen = {}
+            for line in open(hp):
+                k, _, v = line.rstrip("\n").partition("\t")
+                seen.setdefault(k, set()).add(v)
+            os.remove(hp)
+            for k, vs in seen.items():
+                want = ref.get(k)
+                if want is None:
+                    continue
+                cold_joined += 1
+                if vs != want:
+                    cold_mismatch += 1
+                    case, _, kind = k.split("/")
+                    sig = f"C20/cold-start-vs-reference-process/{kind}"
+                    agg.viol.append({"sig": sig, "case": int(case), "seed": seed, "variant": variant,
+                                     "detail": f"job {k}: a process whose first calculations ran on 16 threads at once produced digests {sorted(vs)}; "
+                                               f"a process that calculated the same jobs strictly one after another produced {sorted(want)} "
+                                               f"(replay: rpv C20 --start {case} --count 1 --param cold=1 vs --param cold=2)",
+                                     "input": None})
+                    agg.viol_sig_counts[sig] = agg.viol_sig_counts.get(sig, 0) + 1
     stats["cold_start_processes"] = 2 * n_cold
+    stats["cold_start_results_compared_with_reference_process"] = cold_joined
+    stats["cold_start_mismatches_with_reference_process"] = cold_mismatch
+    if cold_joined == 0:
+        agg.inconclusive.append("cold-start campaign compared nothing with the reference processes")
     tsan = D.build("tsan")
     n_tsan = 160 if quick else 3000
     before = agg.crashes
